@@ -134,6 +134,79 @@ Proof.
   destruct (N.land (p_version st) v =? 0) eqn:Z; [destruct (oe_strict_ret _ _ _ _ _ _ H)|]. apply N.eqb_neq. exact Z.
 Qed.
 
+(* strict unescaping never lengthens the text: every entity is at least as long as the character it denotes *)
+Lemma utf8_encode_len v : (List.length (utf8_encode v) <= 4)%nat.
+Proof. unfold utf8_encode. repeat match goal with |- context [if ?c then _ else _] => destruct c end; cbn; lia. Qed.
+
+Lemma digits_nonempty bits radix s v : from_str_radix_u bits radix s = Some v -> s <> [].
+Proof. destruct s; [discriminate|discriminate]. Qed.
+
+Lemma starts_with_len pre l : starts_with pre l = true -> (List.length pre <= List.length l)%nat.
+Proof.
+  revert l; induction pre as [|p pre IH]; intros [|x l]; cbn [starts_with List.length]; try lia; try discriminate.
+  rewrite andb_true_iff. intros [_ H]. apply IH in H. lia.
+Qed.
+
+Lemma unescape_loop_len fuel : forall rem acc st u st',
+  unescape_loop true fuel rem acc st = Val (Ret u st') -> (List.length u <= List.length acc + List.length rem)%nat.
+Proof.
+  induction fuel as [|f IH]; intros rem acc st u st' H; [discriminate H|]. cbn [unescape_loop] in H.
+  destruct (find_byte 38 rem) as [pos|] eqn:F; [|injection H as <- _; rewrite app_length; lia].
+  unfold find_byte in F. pose proof (LexerProofs.position_Some _ _ F) as (LP & _ & _).
+  set (rem' := skipn pos rem) in *. set (acc' := acc ++ firstn pos rem) in *.
+  assert (LA : (List.length acc' + List.length rem' = List.length acc + List.length rem)%nat).
+  { unfold acc', rem'. rewrite app_length, firstn_length, skipn_length. lia. }
+  assert (L1 : (1 <= List.length rem')%nat) by (unfold rem'; rewrite skipn_length; lia).
+  assert (STEP : forall n c, (1 <= n)%nat -> unescape_loop true f (skipn n rem') (acc' ++ [c]) st = Val (Ret u st') ->
+                 (List.length u <= List.length acc + List.length rem)%nat).
+  { intros n c Hn HH. apply IH in HH. rewrite app_length, skipn_length in HH. cbn [List.length] in HH. lia. }
+  assert (INV : forall a, mbind (optional_error true InvalidXmlEntity 0 0) (fun _ => unescape_loop true f (skipn 1 rem') a) st = Val (Ret u st') ->
+                 (List.length u <= List.length acc + List.length rem)%nat).
+  { intros a HH. inv HH as u1 s1 E1. destruct (oe_strict_ret _ _ _ _ _ _ E1). }
+  assert (REF : forall k endpos v, (1 <= endpos - k)%nat -> (2 <= k)%nat -> (endpos < List.length rem')%nat ->
+            unescape_loop true f (skipn (S endpos) rem') (acc' ++ utf8_encode v) st = Val (Ret u st') ->
+            (List.length u <= List.length acc + List.length rem)%nat).
+  { intros k endpos v K1 K2 LE HH. apply IH in HH. rewrite app_length, skipn_length in HH.
+    pose proof (utf8_encode_len v). lia. }
+  destruct (starts_with (BS "&lt;") rem'); [eapply (STEP 4%nat); [lia|exact H]|].
+  destruct (starts_with (BS "&gt;") rem'); [eapply (STEP 4%nat); [lia|exact H]|].
+  destruct (starts_with (BS "&amp;") rem'); [eapply (STEP 5%nat); [lia|exact H]|].
+  destruct (starts_with (BS "&apos;") rem'); [eapply (STEP 6%nat); [lia|exact H]|].
+  destruct (starts_with (BS "&quot;") rem'); [eapply (STEP 6%nat); [lia|exact H]|].
+  destruct (starts_with (BS "&#x") rem').
+  { destruct (find_byte 59 rem') as [endpos|] eqn:F2; [|apply (INV _ H)].
+    unfold find_byte in F2. pose proof (LexerProofs.position_Some _ _ F2) as (LE & _ & _).
+    destruct (from_str_radix_u 32 16 (firstn (endpos - 3) (skipn 3 rem'))) as [v|] eqn:R; [|apply (INV _ H)].
+    destruct (is_char v); [|apply (INV _ H)].
+    apply digits_nonempty in R.
+    assert (K : (1 <= endpos - 3)%nat).
+    { destruct (endpos - 3)%nat eqn:Z; [cbn in R; congruence|lia]. }
+    eapply (REF 3%nat endpos v); [lia|lia|exact LE|exact H]. }
+  destruct (starts_with (BS "&#") rem').
+  { destruct (find_byte 59 rem') as [endpos|] eqn:F2; [|apply (INV _ H)].
+    unfold find_byte in F2. pose proof (LexerProofs.position_Some _ _ F2) as (LE & _ & _).
+    destruct (from_str_radix_u 32 10 (firstn (endpos - 2) (skipn 2 rem'))) as [v|] eqn:R; [|apply (INV _ H)].
+    destruct (is_char v); [|apply (INV _ H)].
+    apply digits_nonempty in R.
+    assert (K : (1 <= endpos - 2)%nat).
+    { destruct (endpos - 2)%nat eqn:Z; [cbn in R; congruence|lia]. }
+    eapply (REF 2%nat endpos v); [lia|lia|exact LE|exact H]. }
+  apply (INV _ H).
+Qed.
+
+Lemma unescape_string_len input st u st' :
+  unescape_string true input st = Val (Ret u st') -> (List.length u <= List.length input)%nat.
+Proof.
+  unfold unescape_string. destruct (find_byte 38 input).
+  - intros H. apply unescape_loop_len in H. cbn [List.length] in H. lia.
+  - intros [= <- _]. lia.
+Qed.
+
+Lemma opt_len_gt_mono maxlen a b : (List.length b <= List.length a)%nat -> opt_len_gt maxlen a = false -> opt_len_gt maxlen b = false.
+Proof.
+  unfold opt_len_gt. destruct maxlen as [m|]; [|reflexivity]. rewrite !N.ltb_ge. lia.
+Qed.
+
 Lemma pcd_ret input spec st v st' : PCD input spec st = Val (Ret v st') -> cdata_valid check_fn (p_version st) spec v.
 Proof.
   unfold parse_character_data. intros H. inv H as trimmed s1 E1. apply lift_ret_inv in E1 as [_ ->].
@@ -150,7 +223,13 @@ Proof.
     destruct (utf8_valid trimmed) eqn:U.
     + injection H as <- _. constructor; assumption.
     + inv H as u3 s5 E5. destruct (oe_strict_ret _ _ _ _ _ _ E5).
-  - inv H as u1 s2 E2. inv H as text s3 E3. inv H as u s4 E4. injection H as <- _. constructor.
+  - inv H as u1 s2 E2. apply guard_strict_ret in E2 as [L ->].
+    inv H as text s3 E3.
+    assert (TX : text = (if preserve then input else trimmed)).
+    { destruct (utf8_valid (if preserve then input else trimmed)); [injection E3 as <- _; reflexivity|].
+      inv E3 as u2 s4 E4. destruct (oe_strict_ret _ _ _ _ _ _ E4). }
+    inv H as u s4 E4. injection H as <- _. apply unescape_string_len in E4. rewrite TX in E4.
+    constructor. eapply opt_len_gt_mono; eassumption.
   - destruct (negb (utf8_valid trimmed)); [discriminate H|].
     destruct (from_str_radix_u 64 10 trimmed).
     + injection H as <- _. constructor.
